@@ -73,6 +73,7 @@ def report_bads(ctx, bads, events, origin):
         if e["ev"] == "ForestFit":
             by_key[e["key"]] = e
     per_key = {}
+    per_group = {}
     for (l, runid, ev, clause) in bads:
         e = events[l - 1]
         if clause == "Assemble":
@@ -81,13 +82,20 @@ def report_bads(ctx, bads, events, origin):
         if ev == "ForestRefit" and e["key"] in by_key:
             stored = [by_key[e["key"]], e]
         key = "%s: %s forest, %s" % (clause, kind_of(e, events), origin if ev != "ForestRefit" else "refit")
+        group = key
+        if ev == "ForestFit" and e["in"]["kind"] == "cls" and clause in ("Stratified", "InBagFit", "OobOK", "VoteOK", "LabelsOK"):
+            # the class-size profile is part of the failing input class (a stratum of one row
+            # among n rows is a different case from a balanced split)
+            key += ", class sizes %s of n=%d" % ("/".join(str(c) for c in e["in"]["classSizes"]), e["in"]["n"])
         per_key[key] = per_key.get(key, 0) + 1
-        if per_key[key] > 3:        # three replay artefacts per failing class are enough
+        per_group[group] = per_group.get(group, 0) + 1
+        if per_key[key] > 3 or per_group[group] > 12:   # a few replay artefacts per failing class are enough
             continue
         ctx.report(key, "%s fails on %s" % (clause, describe(e)), stored)
-    for k, c in sorted(per_key.items()):
+    for g, c in sorted(per_group.items()):
         if c > 3:
-            vlib.log("  (%d further events fail [%s]; not listed individually)" % (c - 3, k))
+            profiles = sorted(k[len(g):].lstrip(", ") for k in per_key if k.startswith(g) and len(k) > len(g))
+            vlib.log("  (%d events in all fail [%s]%s)" % (c, g, ("; profiles: " + "; ".join(profiles[:40])) if profiles else ""))
 
 
 def run(ctx):
@@ -157,6 +165,13 @@ def run(ctx):
         if sample_big is None and o["nTrain"] >= 60 and o["trees"] >= 8:
             sample_big = {"ev": "ForestFit", "key": e["key"], "digest": e["digest"], "in": {k: v for k, v in e["in"].items() if k not in ("X", "Xq", "y", "yHex")},
                           "obs": "(%d x %d per-tree predictions, %d x %d membership bits elided)" % (o["trees"], o["nAll"], o["trees"], o["nTrain"])}
+    # the systematic family must be complete: a single-row class at every row count of the range
+    single_n = set(e["in"]["n"] for e in events if e["ev"] == "ForestFit" and e["status"] == "ok"
+                   and e["in"]["kind"] == "cls" and e["in"]["keep"] and e["in"]["classSizes"][:1] == [1])
+    missing = [n for n in range(4, 121) if n not in single_n]
+    if missing:
+        raise vlib.ToolError("vacuous run: no kept-samples classifier fit with a single-row class for n in %s" % missing)
+    ctx.extra["single_row_class_with_kept_samples_at_every_n_4_120"] = True
     seed_sensitive = sum(1 for b, ds in digests_by_base.items() if len(ds) > 1)
     nt_asm = 0
     for e in obs_events:
